@@ -160,6 +160,16 @@ fn candidates(base: &Spec) -> Vec<Candidate> {
             bytes: postcard::to_stdvec(&forged).unwrap(),
         });
     }
+    // record identifiers cut short: no key, no author, half an author, ... (64 bytes are the
+    // minimum: namespace id and author id)
+    for n in [0usize, 1, 31, 32, 33, 48, 63] {
+        let mut r = raw.clone();
+        r.id.truncate(n);
+        v.push(Candidate {
+            label: format!("id_cut_to_{n}_bytes"),
+            bytes: r.encode(),
+        });
+    }
     // ids that are not curve points
     let np = not_a_point();
     let mut r = raw.clone();
